@@ -459,6 +459,8 @@ type vC14Case struct {
 	isApp  bool
 	hs     []int // connection made by the real handshake: see vC14ExecHS
 	isHS   bool
+	sizes  []int // partial reads: buffer sizes of the successive Read calls (cycled)
+	isPart bool
 }
 
 type vC14App struct {
@@ -470,7 +472,7 @@ type vC14App struct {
 
 func vC14Decode(c vSx) (vC14Case, bool) {
 	var k vC14Case
-	if !c.isList() || len(c.l) < 5 || len(c.l) > 8 || !c.l[4].isBytes() {
+	if !c.isList() || len(c.l) < 5 || len(c.l) > 9 || !c.l[4].isBytes() {
 		return k, false
 	}
 	for i := 5; i < len(c.l); i++ {
@@ -485,6 +487,15 @@ func vC14Decode(c vSx) (vC14Case, bool) {
 				return k, false
 			}
 			k.apps = append(k.apps, vC14App{a.l[0].int(), a.l[1].int(), a.l[2].int(), a.l[3].b})
+		}
+	}
+	if len(c.l) == 9 {
+		k.isPart = true
+		for _, x := range c.l[8].l {
+			k.sizes = append(k.sizes, x.int())
+		}
+		if len(k.sizes) == 0 {
+			return k, false
 		}
 	}
 	if len(c.l) == 8 {
@@ -556,6 +567,10 @@ type vC14Run struct {
 
 func vC14Exec(k vC14Case) (run vC14Run) {
 	chunks, bufSize := vC14Shape(k)
+	if k.isPart {
+		// the model of Read(p) call by call takes the whole stream to be in the bufio buffer
+		chunks, bufSize = nil, len(k.wire)+4096
+	}
 	nc := &vC14Conn{data: k.wire, chunks: chunks}
 	defer func() {
 		if r := recover(); r != nil {
@@ -607,8 +622,64 @@ func vC14Exec(k vC14Case) (run vC14Run) {
 		}
 		extra = 0
 	}
+	if k.isPart {
+		si := 0
+		for {
+			mt, r, err := c.NextReader()
+			if err != nil {
+				results = append(results, vC14ErrSx(err))
+				run.errs = append(run.errs, err)
+				break
+			}
+			var chunks []vSx
+			var whole []byte
+			var rerr error
+			zero := 0
+			si = 0 // the size pattern restarts with every message
+			for {
+				want := k.sizes[si%len(k.sizes)]
+				si++
+				buf := make([]byte, want)
+				n, e := r.Read(buf)
+				if e == io.EOF {
+					if n != 0 {
+						run.wbad = "Read returned data together with io.EOF"
+					}
+					break
+				}
+				if e != nil {
+					rerr = e
+					break
+				}
+				if n > want || (n == 0 && want > 0) {
+					run.wbad = fmt.Sprintf("Read(len %d) returned n = %d with a nil error", want, n)
+				}
+				if n == 0 {
+					zero++
+					if zero > 4*len(k.sizes)+8 {
+						run.wbad = "Read makes no progress"
+						rerr = io.ErrNoProgress
+						break
+					}
+				} else {
+					zero = 0
+				}
+				chunks = append(chunks, vB(buf[:n]))
+				whole = append(whole, buf[:n]...)
+			}
+			if rerr != nil {
+				results = append(results, vC14ErrSx(rerr))
+				run.errs = append(run.errs, rerr)
+				break
+			}
+			results = append(results, vL(vZ(4), vI(mt), vLs(chunks)))
+			run.msgs = append(run.msgs, whole)
+			run.mtypes = append(run.mtypes, mt)
+		}
+		extra = 0
+	}
 	readIdx := 0
-	for !k.isPat {
+	for !k.isPat && !k.isPart {
 		if k.isApp && extra < 0 {
 			for _, a := range k.apps {
 				if a.k != readIdx {
@@ -995,6 +1066,33 @@ func vC14HandshakeSweep(r *vRng, nRandom int, emit func(c vSx)) {
 			}
 		}
 	}
+}
+
+// a consumer that reads every message with small Read buffers (0 and 1 included) across frame
+// boundaries, both roles (server role: masked payloads, readMaskPos across the partial reads)
+func vC14GenPartial(r *vRng) vSx {
+	var c vSx
+	for {
+		c = vC14GenSession(r)
+		kc, _ := vC14Decode(c)
+		if len(kc.wire) < 60000 && vC14Spec(kc.server, kc.limit, kc.wire).maxLen < 1<<20 {
+			break
+		}
+	}
+	n := r.rng(1, 6)
+	var sizes []vSx
+	nonzero := false
+	for i := 0; i < n; i++ {
+		x := r.pickInt(0, 1, 1, 2, 3, 4, 5, 7, 8, 13, 64, 125, 126, 127, 1000)
+		if x > 0 {
+			nonzero = true
+		}
+		sizes = append(sizes, vI(x))
+	}
+	if !nonzero {
+		sizes = append(sizes, vI(r.rng(1, 9)))
+	}
+	return vL(c.l[0], c.l[1], c.l[2], vZ(0), c.l[4], vL(), vL(), vL(), vLs(sizes))
 }
 
 // the situation of the property's last clause, deterministically: the application sends its own
@@ -1793,8 +1891,28 @@ func TestVerifC14(t *testing.T) {
 	vC14ViolationSweep(func(c vSx) { k.count("kind", "violation-sweep"); runOne(c) })
 	vC14CloseSweep(func(c vSx) { k.count("kind", "close-sweep"); runOne(c) })
 	vC14HandshakeSweep(k.rnd, k.N(60, 600), func(c vSx) { k.count("kind", "real-handshake"); runOne(c) })
+	nPart := k.N(2500, 8000)
+	for i := 0; i < nPart; i++ {
+		k.count("kind", "partial-reads")
+		runOne(vC14GenPartial(k.rnd))
+	}
+	// masked fragmented messages whose fragments end at every offset mod 4, read with every small buffer size
+	for _, sz := range []int{1, 2, 3, 4, 5, 7} {
+		for l1 := 0; l1 <= 5; l1++ {
+			for l2 := 0; l2 <= 5; l2++ {
+				r := &vRng{s: uint64(sz*100 + l1*10 + l2)}
+				var wire []byte
+				wire = append(wire, vC14Ser(vC14Mk(r, true, 2, false, r.bytes(l1)))...)
+				wire = append(wire, vC14Ser(vC14Mk(r, true, 9, true, r.bytes(3)))...)
+				wire = append(wire, vC14Ser(vC14Mk(r, true, 0, false, r.bytes(l2)))...)
+				wire = append(wire, vC14Ser(vC14Mk(r, true, 0, true, r.bytes(6)))...)
+				k.count("kind", "partial-reads")
+				runOne(vL(vZ(vC14Fixed()), vZ(1), vZ(0), vZ(0), vB(wire), vL(), vL(), vL(), vL(vI(sz), vI(0))))
+			}
+		}
+	}
 	vC14OwnCloseSweep(func(c vSx) { k.count("kind", "own-close-sweep"); runOne(c) })
-	nApp := k.N(3000, 25000)
+	nApp := k.N(3000, 12000)
 	for i := 0; i < nApp; i++ {
 		k.count("kind", "app-writes")
 		runOne(vC14GenApp(k.rnd))
